@@ -272,6 +272,7 @@ func c16Sim(r *simcore.Run) {
 	}
 	serial := int64(10)
 	var mustHave ksEntry
+	positionalKids := s.Draw(3, "positional-kids") == 2
 	genVersion := func() ksVersion {
 		n := 1 + s.Draw(3, "n-entries")
 		var es []ksEntry
@@ -285,8 +286,11 @@ func c16Sim(r *simcore.Run) {
 			used[k] = true
 			serial++
 			e := ksEntry{key: k, serial: serial}
-			if s.Draw(3, "kid-header") == 2 {
-				e.kid = "id-" + k // one id per key: a key id is never reused for other key material
+			if positionalKids {
+				// key ids stay while the key material rotates (the usual rotation with a configured key_id / fixed X-Key-ID)
+				e.kid = fmt.Sprintf("pos-%d", len(es))
+			} else if s.Draw(3, "kid-header") == 2 {
+				e.kid = "id-" + k
 			}
 			e.chain = s.Draw(4, "cert-chain") == 3
 			if e.chain {
@@ -295,7 +299,7 @@ func c16Sim(r *simcore.Run) {
 			es = append(es, e)
 		}
 		// a configured key_id must exist in every version, otherwise the reload is legitimately rejected
-		if mustHave.key != "" {
+		if mustHave.key != "" && !positionalKids {
 			present := false
 			for i := range es {
 				if es[i].key == mustHave.key {
@@ -315,7 +319,11 @@ func c16Sim(r *simcore.Run) {
 		return
 	}
 	useKeyID := ""
-	if initial.entries[len(initial.entries)-1].kid != "" && s.Draw(3, "configured-key-id") == 2 {
+	if positionalKids {
+		if s.Draw(2, "configured-key-id") == 1 {
+			useKeyID = "pos-0" // present in every version
+		}
+	} else if initial.entries[len(initial.entries)-1].kid != "" && s.Draw(3, "configured-key-id") == 2 {
 		useKeyID = initial.entries[len(initial.entries)-1].kid
 		mustHave = initial.entries[len(initial.entries)-1]
 	}
